@@ -192,7 +192,11 @@ func c13RunWorkers(c *Cfg, cases []*c13Case) {
 							done = true
 						case <-tick.C:
 							used := procCPU(pp.cmd.Process.Pid) - cpu0
-							if used > cpuLimit || time.Since(t0) > wallCap {
+							lim := cpuLimit
+							if cs.probe {
+								lim = 2.5
+							}
+							if used > lim || time.Since(t0) > wallCap {
 								waiting = false
 								if os.Getenv("C13_DEBUG") != "" {
 									fmt.Fprintf(os.Stderr, "TIMEOUT attempt %d cpu %.1fs wall %v worker %d case %d len %d: %.120s\n", attempt, used, time.Since(t0), w, i, len(cs.schemaTxt), cs.schemaTxt)
